@@ -153,6 +153,18 @@ def bounded(tier, seed):
             v, want, got = violations(header, size)
             if v:
                 failures.append({"inputs": {"header": header, "size": size}, "violated": v})
+    # numerals of 18..45 digits (and with leading zeros): every digit counts - a position far beyond the file is not its low digits
+    for size in (1, 10, 4623):
+        for digits in (18, 19, 20, 21, 23, 30, 45):
+            for low in (0, 5, size - 1):
+                big = "1" + "0" * (digits - len(str(low)) - 1) + str(low)
+                padded = "0" * (digits - len(str(low))) + str(low)
+                for header in ("bytes=%s-" % big, "bytes=%s-%d" % (big, size + 3), "bytes=0-0,%s-%s9" % (big, big), "bytes=-%s" % big,
+                               "bytes=%s-" % padded, "bytes=%d-%s" % (low, big), "bytes=%s-%s" % (padded, padded)):
+                    evals += 1
+                    v, want, got = violations(header, size)
+                    if v and len(failures) < 10:
+                        failures.append({"inputs": {"header": header, "size": size}, "violated": v})
     # seeded random large range sets
     n_rand = 300 if tier == "quick" else 20000
     for _ in range(n_rand):
@@ -172,6 +184,6 @@ def bounded(tier, seed):
             failures.append({"inputs": {"header": header, "size": size}, "violated": v})
     return {"evaluations": evals, "distinct_nontrivial": len(seen), "failures": failures[:10], "samples": samples,
             "rule": "every Range header with <= 2 specs (3 specs: all or a seeded sample) over the numbers 0..size+2, "
-                    "all three spec forms, sizes %s, two separators; plus noise strings and seeded random large sets; "
+                    "all three spec forms, sizes %s, two separators; plus noise strings, numerals of 18..45 digits and seeded random large sets; "
                     "non-trivial = accepted header with >= 2 specs, counted distinct by (size, spec tuple)" % (list(sizes),),
             "exhaustive": False}
